@@ -500,13 +500,13 @@ def reflection_cases(n, values, ngen, seed):
 def reflection_ideal_cases(q, seed):
     for n in (2, 3, 4):
         values = LATTICE5 if (n <= 3 or not q) else LATTICE3
-        for w in lattice_normals(n, values) + generic_normals(n, 6 if q else 24, seed):
+        for w in lattice_normals(n, values) + generic_normals(n, 6 if q else (150 if DEEP else 24), seed):
             for ctor in (["Subspace", "Geodesic", "Segment"] if n == 2 else ["Subspace"]):
                 yield {"n": n, "normal": w, "ctor": ctor}
 
 
 def _points(n, q, seed):
-    return [list(map(float, p)) for p in lattice.klein_points(n, m_generic=6 if q else 40, seed=seed, rmax=0.9 if q else 0.97)]
+    return [list(map(float, p)) for p in lattice.klein_points(n, m_generic=6 if q else (200 if DEEP else 40), seed=seed, rmax=0.9 if q else 0.97)]
 
 
 def nonreflection_cases(q, seed):
@@ -586,6 +586,7 @@ def fixed_composite_cases(q, seed):
 # histories: query, then move / re-set / rebuild / index the object, then query again
 # ------------------------------------------------------------------------------------------
 HIST_DEPTH = 3
+DEEP = False          # set by run() in the parent process only
 
 
 def _explicit_isometry(n):
@@ -867,6 +868,8 @@ def coxeter_cases(q):
 def run(ctx):
     # the full exploration takes ~6 s on 16 cores, so the quick tier runs the thorough bounds as well
     q, seed = False, ctx.seed
+    global DEEP
+    DEEP = not ctx.quick          # thorough tier: more generic normals and conjugating points
     only = getattr(ctx, "only", None)
 
     def want(name):
